@@ -153,7 +153,7 @@ where
         c.store(0, Ordering::SeqCst);
     }
     let _ = std::io::stdout().flush();
-    let dir = format!("{}/scratch/par-{}-{}", crate::util::VERIF_DIR, std::process::id(), {
+    let dir = format!("{}/scratch/par-{}-{}", crate::util::out_dir(), std::process::id(), {
         static CALLS: AtomicUsize = AtomicUsize::new(0);
         CALLS.fetch_add(1, Ordering::SeqCst)
     });
@@ -252,6 +252,10 @@ pub struct Exploration {
     pub hashes: BTreeSet<u64>,
     pub decisions: u64,
     pub max_steps_hit: u64,
+    /// executions put through the trace-conformance checker / of which inconclusive / mismatches
+    pub conf_checked: u64,
+    pub conf_inconclusive: u64,
+    pub conf_bad: Vec<(String, String, Vec<u32>)>,
 }
 
 fn panic_kind(msg: &str) -> String {
@@ -294,6 +298,40 @@ pub fn outcome_of(prog: &Prog, world: Option<&Arc<World>>, log: &rec::ExecLog, t
     Outcome { results, term }
 }
 
+/// The observed execution as the conformance checker wants it: calls, returns and chosen spurious
+/// wake-ups in log order, in terms of the program's task indices.
+pub fn observed_events(prog: &Prog, log: &rec::ExecLog) -> Vec<model::ObsEv> {
+    let mut map: BTreeMap<usize, usize> = BTreeMap::new();
+    map.insert(0, 0);
+    let mut out = vec![];
+    for e in &log.events {
+        match e {
+            Ev::Body { tag, a, b, .. } => {
+                if tag & TAG_SPAWNMAP != 0 {
+                    map.insert(*b as usize, *a as usize);
+                } else if tag & TAG_START != 0 {
+                } else if tag & TAG_CALL != 0 {
+                    if *a == 0 {
+                        out.push(model::ObsEv::Call(tag_task(*tag), tag_op(*tag)));
+                    }
+                } else if tag_task(*tag) < prog.tasks.len() {
+                    out.push(model::ObsEv::Ret(tag_task(*tag), tag_op(*tag), *a));
+                }
+            }
+            Ev::Decision(d) => {
+                if let Some(c) = d.choice {
+                    let flags = d.offered.iter().find(|(id, _)| *id == c).map(|x| x.1).unwrap_or(0);
+                    if flags & rec::F_BLOCKED != 0 && flags & rec::F_SPURIOUS != 0 {
+                        out.push(model::ObsEv::Spurious(map.get(&c).copied().unwrap_or(usize::MAX)));
+                    }
+                }
+            }
+            _ => {}
+        }
+    }
+    out
+}
+
 pub enum Mode {
     /// exhaustive enumeration with a cap on executions
     Enum(u64),
@@ -317,6 +355,9 @@ pub fn explore_prog(prog: &Prog, mode: Mode, clocks: bool) -> Exploration {
         hashes: BTreeSet::new(),
         decisions: 0,
         max_steps_hit: 0,
+        conf_checked: 0,
+        conf_inconclusive: 0,
+        conf_bad: vec![],
     }));
     let p2 = prog.clone();
     let s2 = slot.clone();
@@ -354,6 +395,28 @@ pub fn explore_prog(prog: &Prog, mode: Mode, clocks: bool) -> Exploration {
                 ex.max_steps_hit += 1;
             }
             let o = outcome_of(&prog, world.as_ref(), &f.log, &term);
+            // trace conformance of this one execution (all of the first executions, then a sample)
+            if term != Term::StepBound && (ex.executions <= 2_000 || ex.executions % 16 == 0) && ex.conf_bad.len() < 4 {
+                let evs = observed_events(&prog, &f.log);
+                match model::conforms(&prog, &evs, &o.term, 30_000) {
+                    model::Conf::Ok => ex.conf_checked += 1,
+                    model::Conf::Inconclusive => ex.conf_inconclusive += 1,
+                    model::Conf::Mismatch(i, what) => {
+                        ex.conf_checked += 1;
+                        let kind = match evs.get(i) {
+                            Some(model::ObsEv::Call(t, o)) | Some(model::ObsEv::Ret(t, o, _)) => op_kind(&prog.tasks[*t][*o]),
+                            Some(model::ObsEv::Spurious(_)) => "spurious-wake-up".to_string(),
+                            None => match &o.term {
+                                MTerm::Pass => "end:pass".to_string(),
+                                MTerm::Deadlock(_) => "end:deadlock".to_string(),
+                                MTerm::Panic(_) => "end:panic".to_string(),
+                            },
+                        };
+                        let trace: Vec<String> = evs.iter().map(|e| format!("{e:?}")).collect();
+                        ex.conf_bad.push((kind, format!("{what}; observed events: [{}]", trace.join(", ")), choices.clone()));
+                    }
+                }
+            }
             ex.observed.entry(o).or_insert(choices);
             if let Some(w) = &world {
                 w.forget_endpoints();
@@ -429,6 +492,9 @@ pub fn explore_prog(prog: &Prog, mode: Mode, clocks: bool) -> Exploration {
             hashes: BTreeSet::new(),
             decisions: 0,
             max_steps_hit: 0,
+        conf_checked: 0,
+        conf_inconclusive: 0,
+        conf_bad: vec![],
         },
     );
     e
@@ -556,6 +622,11 @@ pub fn check_prog(
     }
     for (what, ch) in &ex.shadow {
         acc.violation("exclusion", what.clone(), wit(ch, json!(null)));
+    }
+    acc.add("executions_trace_conformance_checked", ex.conf_checked);
+    acc.add("executions_trace_conformance_inconclusive", ex.conf_inconclusive);
+    for (kind, what, ch) in &ex.conf_bad {
+        acc.violation(&format!("trace-nonconformant:{kind}"), format!("this execution, on its own, is not a behaviour of the reference model: {what}"), wit(ch, json!(null)));
     }
     let observed: BTreeSet<Outcome> = ex.observed.keys().cloned().collect();
     acc.add("distinct_outcomes_observed", observed.len() as u64);
